@@ -46,6 +46,10 @@ static void desc_iter(var c) {
 static var build(void) {
   if (tok >= hc_nw) { fprintf(stderr, "short expr\n"); exit(9); }
   char k = hc_w[tok][0];
+  /* lower-case base kinds: the same contents reached through a history (extra elements inserted at the front, in the middle
+     and at the end, then removed again): iteration must not depend on how the container got its contents */
+  int hist = (k == 'a' || k == 'l' || k == 'u' || k == 'b' || k == 'r');
+  if (hist) k = (char)(k - 'a' + 'A');
   if (k == 'A' || k == 'L' || k == 'U' || k == 'B' || k == 'R') {
     int n = (int)hc_int(tok + 1);
     var c = k == 'A' ? (var)new(Array, Int) : k == 'L' ? (var)new(List, Int) : k == 'U' ? (var)new(Tuple) :
@@ -54,6 +58,19 @@ static var build(void) {
     for (int i = 0; i < n; i++) {
       int64_t v = hc_int(tok + 2 + i);
       if (k == 'U') push(c, new(Int, $I(v))); else if (k == 'B' || k == 'R') set(c, $I(v), $I(v * 10)); else push(c, $I(v));
+    }
+    if (hist && n >= 1) {
+      if (k == 'B' || k == 'R') {
+        for (int j = 0; j < 5; j++) set(c, $I(770000 + 37 * j), $I(1));
+        for (int j = 0; j < 5; j++) rem(c, $I(770000 + 37 * j));
+      } else {
+        push_at(c, k == 'U' ? (var)new(Int, $I(7771)) : (var)$I(7771), $I(0));
+        if (n >= 2) push_at(c, k == 'U' ? (var)new(Int, $I(7772)) : (var)$I(7772), $I(n / 2 + 1));      /* valid: the length is n + 1 here */
+        push(c, k == 'U' ? (var)new(Int, $I(7773)) : (var)$I(7773));
+        pop(c);
+        if (n >= 2) pop_at(c, $I(n / 2 + 1));
+        pop_at(c, $I(0));
+      }
     }
     ev_s("[\"seq\",");
     if (k == 'B' || k == 'R') has_map_base = 1;
